@@ -51,5 +51,9 @@ func init() {
 		{Name: "putCryptoKeys checks each error into a shared variable but returns at once", Kill: false, File: fKsDB,
 			Old: "\tif pubKeyEncrypted != nil {\n\t\terr := b.Put(cryptoPubKeyName, pubKeyEncrypted)\n\t\tif err != nil {\n\t\t\treturn fmt.Errorf(\"failed to store encrypted crypto public key: %v\", err)\n\t\t}\n\t}\n",
 			New: "\tvar err error\n\tif pubKeyEncrypted != nil {\n\t\terr = b.Put(cryptoPubKeyName, pubKeyEncrypted)\n\t\tif err != nil {\n\t\t\treturn fmt.Errorf(\"failed to store encrypted crypto public key: %v\", err)\n\t\t}\n\t}\n"},
+		{Name: "failed index refresh only logged in GenerateNewPublicKey (seed C06-r2c)", Kill: true, Rule: "C12-F", File: fMgr,
+			Old: "\t\t\treturn addrManager.updateManagedAddress(tx, managedAddresses)\n\t\t})\n\t\tif err != nil {\n\t\t\treturn nil, 0, err\n\t\t}\n", New: "\t\t\treturn addrManager.updateManagedAddress(tx, managedAddresses)\n\t\t})\n\t\tif err != nil {\n\t\t\tlogging.CPrint(logging.WARN, \"failed to refresh branch info\", logging.LogFormat{\"error\": err})\n\t\t}\n"},
+		{Name: "NextAddresses ignores the result of the memory refresh", Kill: true, Rule: "C12-F", File: fMgr,
+			Old: "\t\terr = db.View(kmc.db, func(dbTransaction db.ReadTransaction) error {\n\t\t\treturn addrManager.updateManagedAddress(dbTransaction, managedAddresses)\n\t\t})\n\t\tif err != nil {\n\t\t\t// should not be executed\n\t\t\tlogging.CPrint(logging.FATAL, \"failed to update new address\", logging.LogFormat{\"error\": err})\n\t\t\treturn nil, err\n\t\t}\n", New: "\t\t_ = db.View(kmc.db, func(dbTransaction db.ReadTransaction) error {\n\t\t\treturn addrManager.updateManagedAddress(dbTransaction, managedAddresses)\n\t\t})\n"},
 	}
 }
